@@ -61,10 +61,10 @@ GridHeights(G) == [r \in 1..Len(G) |-> Rows(G[r][1])]
 GridWidths(G)  == [c \in 1..Len(G[1]) |-> Cols(G[1][c])]
 GridOK(G) == /\ \A r \in 1..Len(G) : Len(G[r]) = Len(G[1])
              /\ \A r \in 1..Len(G) : \A c \in 1..Len(G[1]) : Rows(G[r][c]) = GridHeights(G)[r] /\ Cols(G[r][c]) = GridWidths(G)[c]
-BlockOf(f, i) == CHOOSE k \in 1..Len(f) : SumUpTo(f, k - 1) < i /\ i <= SumUpTo(f, k)
+GridBlockOf(f, i) == CHOOSE k \in 1..Len(f) : SumUpTo(f, k - 1) < i /\ i <= SumUpTo(f, k)
 BlockGrid(G) == LET Hs == GridHeights(G)  Ws == GridWidths(G) IN
                 [i \in 1..SumUpTo(Hs, Len(Hs)) |-> [j \in 1..SumUpTo(Ws, Len(Ws)) |->
-                    LET r == BlockOf(Hs, i)  c == BlockOf(Ws, j) IN G[r][c][i - SumUpTo(Hs, r - 1)][j - SumUpTo(Ws, c - 1)]]]
+                    LET r == GridBlockOf(Hs, i)  c == GridBlockOf(Ws, j) IN G[r][c][i - SumUpTo(Hs, r - 1)][j - SumUpTo(Ws, c - 1)]]]
 
 \* ---- when is a request meaningful (C04 "defined exactly when", shared with C10)
 Defined(op, A, B) ==
